@@ -1,5 +1,5 @@
 From Coq Require Import NArith ZArith.
 From GoMC Require Import Base.Dec Model.C01 Model.C03.
 Require Import ExtrOcamlBasic.
-Extraction "c03_model.ml" run_flat Decode dec_any dec_map dec_struct0 dec_raw dec_snbt dec_text raw_string
+Extraction "c03_model.ml" run_flat run_fast decode_raw_fast Decode dec_any dec_map dec_struct0 dec_raw dec_snbt dec_text raw_string
   dec_dyn dec_ty dec_st zero sdepth Z.of_N N.of_nat.
